@@ -91,6 +91,17 @@ func c08Features() []c08Feature {
 			[]c08Mut{{"slice bound of a tuple sharing storage with another referenced tuple", "VERSION[:2]", "VERSION[:1]"}}},
 		{"tuple-slice-then-full", "FULLT = (7, 8, 9)\nHEAD = FULLT[:1]\n", "[HEAD, FULLT]",
 			[]c08Mut{{"element beyond a prefix slice referenced first", "(7, 8, 9)", "(7, 8, 10)"}}},
+		// several nested functions of one enclosing function that share a name: every lambda is called "lambda", and a def may
+		// be repeated in both arms of an if; the constants 110/120/130 already occur in SAME_CONSTS, so the edits do not move
+		// the module's constant table
+		{"same-name-lambdas", "SAME_CONSTS = [110, 120, 130]\ndef choose(x):\n    lo = lambda q: q + 110\n    hi = lambda q: q + 120\n    return lo(x) + hi(x)\n", "choose(1)",
+			[]c08Mut{{"operator in the first of two lambdas of one function", "q + 110", "q - 110"}, {"literal in the first of two lambdas of one function", "q + 110", "q + 130"},
+				{"operator in the last of two lambdas of one function", "q + 120", "q - 120"}}},
+		{"same-name-defs", "ARM_CONSTS = [3, 5, 9]\ndef pick_arm(flag):\n    if flag:\n        def impl(w):\n            return w * 3\n    else:\n        def impl(w):\n            return w * 5\n    return impl\n", "pick_arm(True)(2)",
+			[]c08Mut{{"operator in the first of two same-named nested defs", "w * 3", "w + 3"}, {"literal in the first of two same-named nested defs", "w * 3", "w * 9"},
+				{"literal in the second of two same-named nested defs", "w * 5", "w * 9"}}},
+		{"three-lambdas-builtin", "def measure(xs):\n    a = lambda r: len(r)\n    b = lambda r: str(r)\n    c = lambda r: repr(r)\n    return [a(xs), b(xs), c(xs)]\n", "measure([1])",
+			[]c08Mut{{"builtin called by the first of three lambdas", "lambda r: len(r)", "lambda r: repr(r)"}, {"builtin called by the middle lambda", "lambda r: str(r)", "lambda r: len(r)"}}},
 		{"tuple-sizes", "TUP = ((), (1,), (1, 2), (1, 2, 3), (1, 2, 3, 4))\n", "TUP", []c08Mut{{"tuple element", "(1, 2, 3, 4))", "(1, 2, 3, 5))"}}},
 	}
 }
